@@ -55,6 +55,13 @@ impl Formatter for EmptyLineRemover {
             return (byte_pos, byte_pos);
         }
 
+        // The line break is a residue only if its line is blank up to the removal position:
+        // after an inline removal at the end of a line it still ends that line.
+        let before = content[..byte_pos].trim_end_matches(|c| c == ' ' || c == '\t');
+        if !(before.is_empty() || before.ends_with('\n')) {
+            return (byte_pos, byte_pos);
+        }
+
         let is_not_next_line_empty = find_next_line_break_pos(content, bytes, byte_pos, true)
             .and_then(|pos| find_next_line_break_pos(content, bytes, pos + 1, true))
             .is_none();
